@@ -127,7 +127,7 @@ static std::string runServer(std::size_t maxsz, const std::vector<std::string> &
     else if (k == "X") srv.sendClose(sid, static_cast<std::uint16_t>(std::stoul(parts[1])), unhex(parts[2]));
     sink.drain();
   }
-  std::size_t buffered = 0;
+  std::size_t buffered = 0, frag = 0;
   bool alive = false;
   std::string head;
   {
@@ -137,17 +137,25 @@ static std::string runServer(std::size_t maxsz, const std::vector<std::string> &
     {
       alive = true;
       buffered = it->second.buffer.size();
+      frag = it->second.fragmentBuffer.size();
       head.assign(it->second.buffer.begin(), it->second.buffer.begin() + std::min<std::size_t>(14, buffered));
     }
   }
   std::ostringstream o;
   for (std::size_t i = 0; i < sink.evs.size(); ++i) o << (i ? " " : "") << sink.evs[i];
-  o << " | buf=" << buffered << " head=" << hex(head) << " alive=" << (alive ? 1 : 0);
+  o << " | buf=" << buffered << " head=" << hex(head) << " alive=" << (alive ? 1 : 0) << " frag=" << (alive ? frag : 0);
   srv._transport.reset();
   return o.str();
 }
 
-static std::string runClient(std::size_t, const std::vector<std::string> &ops)
+// the client's size limit and its failed-input flag exist since the repair of C18-F1c2; detect them so that this
+// harness still builds (and then reports the unbounded buffering as a failing input) on a tree without them
+template <class C> static auto setClientLimit(C &c, std::size_t m, int) -> decltype(c.setMaxMessageSize(m), void()) { c.setMaxMessageSize(m); }
+template <class C> static void setClientLimit(C &, std::size_t, long) {}
+template <class C> static auto clientInputFailed(C &c, int) -> decltype(c._inputFailed.load(), bool()) { return c._inputFailed.load(); }
+template <class C> static bool clientInputFailed(C &, long) { return false; }
+
+static std::string runClient(std::size_t maxsz, const std::vector<std::string> &ops)
 {
   Sink sink;
   TransportConfig cfg;
@@ -161,6 +169,7 @@ static std::string runClient(std::size_t, const std::vector<std::string> &ops)
   }
   cl->_upgradeComplete.store(true);
   cl->_state.store(WebSocketState::CONNECTED);
+  setClientLimit(*cl, maxsz, 0);
   cl->setOnTextMessage([&](const std::string &t) { sink.drain(); sink.evs.push_back("t:" + hex(t)); });
   cl->setOnBinaryMessage([&](const std::vector<std::uint8_t> &b)
                          { sink.drain(); sink.evs.push_back("b:" + hex(std::string(b.begin(), b.end()))); });
@@ -182,16 +191,18 @@ static std::string runClient(std::size_t, const std::vector<std::string> &ops)
     else if (k == "X") cl->sendClose(static_cast<std::uint16_t>(std::stoul(parts[1])), unhex(parts[2]));
     sink.drain();
   }
-  std::size_t buffered;
+  std::size_t buffered, frag;
   std::string head;
   {
     std::lock_guard<std::mutex> lk(cl->_dataMutex);
     buffered = cl->_buffer.size();
+    frag = cl->_fragmentBuffer.size();
     head.assign(cl->_buffer.begin(), cl->_buffer.begin() + std::min<std::size_t>(14, buffered));
   }
   std::ostringstream o;
   for (std::size_t i = 0; i < sink.evs.size(); ++i) o << (i ? " " : "") << sink.evs[i];
-  o << " | buf=" << buffered << " head=" << hex(head) << " alive=1";
+  const bool alive = !clientInputFailed(*cl, 0);
+  o << " | buf=" << buffered << " head=" << hex(head) << " alive=" << (alive ? 1 : 0) << " frag=" << (alive ? frag : 0);
   {
     std::lock_guard<std::mutex> lk(cl->_transportMutex);
     cl->_transport.reset();
